@@ -2780,6 +2780,13 @@ where
 
             inp.errors.alt = old_alt;
             inp.add_alt_err(&new_alt.pos, new_alt.err);
+        } else {
+            // The parser succeeded: keep the alt that was pending before it ran, with the parser's own alt on top
+            let new_alt = inp.take_alt();
+            inp.errors.alt = old_alt;
+            if let Some(new_alt) = new_alt {
+                inp.add_alt_err(&new_alt.pos, new_alt.err);
+            }
         }
 
         res
